@@ -161,7 +161,7 @@ def check_name_injective(ctx, repo):
                 ctx.ok(c, st, injective_by="name is order-sensitive in every operand key tuple")
 
 
-@rule("C09.name-injective", props=["C09", "C13", "C11", "C12", "C02", "C08"], min_instances=3, mutants=[
+@rule("C09.name-injective", props=["C09", "C13", "C11", "C12", "C02", "C08", "C01", "C03", "C04", "C05", "C06", "C07"], min_instances=3, mutants=[
     ("drop the fresh suffix (unary)", ("operator_dict", "            keys_out, func = do_codegen(self.codegen, mv)\n            # The generated name only encodes which blades are present, not their order: make it unique.\n            func.__name__ = f'{func.__name__}_{id(func)}'\n",
                                        "            keys_out, func = do_codegen(self.codegen, mv)\n")),
 ])
@@ -605,8 +605,9 @@ def _value_reads(repo, cls_qual, fn, self_name, depth=0, seen=None):
     return None
 
 
-@rule("C09.value-memo", props=["C09", "C07", "C19"], min_instances=5, mutants=[
+@rule("C09.value-memo", props=["C09", "C07", "C19", "C06", "C04"], min_instances=5, mutants=[
     ("norm is memoised per object", ("multivector", "    def norm(self):\n        normsq = self.normsq()\n        return normsq.sqrt()", "    @cached_property\n    def _norm(self):\n        normsq = self.normsq()\n        return normsq.sqrt()\n\n    def norm(self):\n        return self._norm")),
+    ("norm is remembered in a dictionary kept in the instance dictionary", ("multivector", "    def norm(self):\n        normsq = self.normsq()\n        return normsq.sqrt()", "    def norm(self):\n        memo = self.__dict__.setdefault('_memo', {})\n        if 'norm' not in memo:\n            memo['norm'] = self.normsq().sqrt()\n        return memo['norm']")),
     ("inverse is memoised per object", ("multivector", "        \"\"\" Inverse of this multivector. \"\"\"\n        return self.algebra.inv(self)", "        \"\"\" Inverse of this multivector. \"\"\"\n        if '_inv' not in self.__dict__:\n            self._inv = self.algebra.inv(self)\n        return self._inv")),
 ])
 def value_memo(ctx):
@@ -626,16 +627,39 @@ def value_memo(ctx):
         decos = {un(d).split("(")[0] for d in st.decorator_list}
         memo = bool(decos & MEMO_DECORATORS)
         manual = None
+        instance_dicts = (f"{self_name}.__dict__", f"vars({self_name})")
         if not memo and st.name not in constructors:
             for n in walk_shallow(st):
                 tg = n.targets if isinstance(n, ast.Assign) else [n.target] if isinstance(n, (ast.AugAssign, ast.AnnAssign)) else []
                 for t in tg:
                     if isinstance(t, ast.Attribute) and un(t.value) == self_name and t.attr not in ("_values", "_keys"):
                         manual = t.attr
-                    if isinstance(t, ast.Subscript) and un(t.value) == f"{self_name}.__dict__":
+                    if isinstance(t, ast.Subscript) and un(t.value) in instance_dicts:
                         manual = un(t.slice)
                 if isinstance(n, ast.Call) and (call_name(n) or "") in ("setattr", "object.__setattr__") and n.args and un(n.args[0]) == self_name:
                     manual = un(n.args[1]) if len(n.args) > 1 else "?"
+                # the instance dictionary written through its mapping interface, directly or through a local alias
+                if isinstance(n, ast.Call) and isinstance(n.func, ast.Attribute) and n.func.attr in ("setdefault", "update", "__setitem__") \
+                        and un(n.func.value) in instance_dicts:
+                    manual = un(n.args[0]) if n.args else "?"
+            # a mutable object kept in the instance dictionary and filled through a local name
+            aliases = {}
+            for n in walk_shallow(st):
+                if isinstance(n, ast.Assign) and len(n.targets) == 1 and isinstance(n.targets[0], ast.Name):
+                    v = n.value
+                    if isinstance(v, ast.Call) and isinstance(v.func, ast.Attribute) and v.func.attr in ("setdefault", "get") \
+                            and un(v.func.value) in instance_dicts and v.args:
+                        aliases[n.targets[0].id] = un(v.args[0])
+                    elif isinstance(v, ast.Subscript) and un(v.value) in instance_dicts:
+                        aliases[n.targets[0].id] = un(v.slice)
+            for n in walk_shallow(st):
+                tg = n.targets if isinstance(n, ast.Assign) else [n.target] if isinstance(n, ast.AugAssign) else []
+                for t in tg:
+                    if isinstance(t, ast.Subscript) and isinstance(t.value, ast.Name) and t.value.id in aliases:
+                        manual = f"__dict__[{aliases[t.value.id]}][...]"
+                if isinstance(n, ast.Call) and isinstance(n.func, ast.Attribute) and isinstance(n.func.value, ast.Name) \
+                        and n.func.value.id in aliases and n.func.attr in ("setdefault", "update", "append", "__setitem__"):
+                    manual = f"__dict__[{aliases[n.func.value.id]}].{n.func.attr}(...)"
         if not memo and manual is None:
             continue
         c = f"{cq}.{st.name}#memo"
